@@ -11,6 +11,10 @@ CLAIMED = {
    text='The real pruning kernels and TreeLikelihoodModel._call are executed symbolically for every enumerated topology / model shape; "log-likelihood == brute-force sum over all ancestral-state x rate-category assignments" becomes a polynomial identity that the SMT solver decides for ALL values of matrices, frequencies, proportions, weights, tip vectors, branch lengths, heights, clock and site rates. Bounded by topology size / states / categories, hence model checking of the enumerated configuration space, not a proof.',
    note='Reals not floats (the 1e-9 tolerance is outside the claim); K2 uses an uninterpreted row-stochastic P(t) in place of substitution_model.p_t (real p_t is C04, site rates C05); n<=4 quick / n<=5 thorough; S<=4; K<=2; one 4-column IUPAC alignment per n; datatype tables run concretely.',
    technique=TECH_A + '; polynomial identity per site pattern, lemma chaining for the log assembly'),
+ 'C06': dict(level=MC, ref='DESIGN.md §4 C06',
+   text='The real ratio / increment node-height transforms and time-tree models are executed on symbolic sampling times, ratios, root height and increments (shapes [] and [2]) for every enumerated rooted topology; orderings of the sampling times are path regions enumerated until the solver certifies coverage. Tip placement, parent>=child on every edge, branch length = parent-child, agreement with an independent recursion of the documented parameterisation, inv(forward(x))=x, forward(inv(y))=y and "device/dtype move keeps the parameterisation" are proved for all real parameter values per region.',
+   note='Reals not floats; n<=4 quick (n<=5 thorough, sampled topologies at 5); sampling times injected after construction (date parsing runs concretely); cuda() exercised through cpu()/to(dtype); smooth-max (k>0) variant outside the claim.',
+   technique=TECH_A + ' with solver-certified path-region coverage'),
  'C08': dict(level=MC, ref='DESIGN.md §4 C08',
    text='Bounded symbolic execution of the real coalescent log_prob code (SymTensor engine): every interleaving of sampling, coalescent and grid events is a path region; regions are enumerated with blocking clauses until the SMT solver certifies that they cover the whole input domain, and on every region "implementation == independent Kingman event-list oracle" is proved for all real heights / population sizes / growth rates / grid points. Bounded (n<=3 quick, n<=4 thorough), so model checking of the path-region space rather than a proof.',
    note='Reals not floats; log/exp uninterpreted with ground axiom instances; torch.distributions validation off (domain constraints instead); n and grid size bounded as stated in the evidence; soft (temperature) skygrid outside the claim.',
